@@ -113,8 +113,25 @@ def reorder(desc, order):
                         file=desc.file, fallback=desc.fallback)
 
 
-def compare(ctx, what, base, got, label, replay):
-    """base/got: {test: normalised}; every test present in `got` must equal its baseline"""
+THOROUGH_BUDGET_S = 900
+
+
+def over_budget(ctx) -> bool:
+    import time
+
+    if ctx.tier == "quick" or time.time() - ctx.t0 < THOROUGH_BUDGET_S:
+        return False
+    if not ctx.hist.get("budget-stop"):
+        ctx.count("budget-stop")
+    return True
+
+
+def compare(ctx, what, base, got, label, replay, rerun=None):
+    """base/got: {test: normalised}; every test present in `got` must equal its baseline. A solver time-out is never a verdict
+    (skipped); a difference is reported only if it shows again when the configuration is run once more (`rerun`)."""
+    if rerun is not None and any(t in base and 2 not in (n["exitcode"], base[t]["exitcode"]) and n != base[t] for t, n in got.items()):
+        ctx.count("compare:difference-rechecked")
+        got = rerun()
     for t, n in got.items():
         if t not in base:
             continue
@@ -155,7 +172,8 @@ def check_orders(ctx, seed, ntests, name, pool):
             ctx.case(f"order|{seed}|{order}|{rep}")
             nconf += 1
             compare(ctx, "order-dependent-result" if not rep else "repeat-in-process-result", base, normed(run),
-                    f"{name} seed {seed} order {order} rep {rep}", dict(replay, order=list(order), rep=rep))
+                    f"{name} seed {seed} order {order} rep {rep}", dict(replay, order=list(order), rep=rep),
+                    rerun=lambda d2=d2: normed(run_cfg(d2, gen.others)))
     for k in range(1, ntests + 1):
         for sub in itertools.combinations(range(ntests), k):
             rx = "|".join(re.escape(gen.checks[i].name) + r"\(" for i in sub)
@@ -167,7 +185,8 @@ def check_orders(ctx, seed, ntests, name, pool):
                 ctx.case(f"subset|{seed}|{sub}|{rep}")
                 nconf += 1
                 compare(ctx, "subset-dependent-result" if not rep else "repeat-in-process-result", base, normed(run),
-                        f"{name} seed {seed} subset {sub} rep {rep}", dict(replay, subset=list(sub), rep=rep))
+                        f"{name} seed {seed} subset {sub} rep {rep}", dict(replay, subset=list(sub), rep=rep),
+                        rerun=lambda rx=rx: normed(run_cfg(gen.desc, gen.others, match_test=f"^({rx})")))
     ctx.count("orders:configurations", nconf)
     return gen, base
 
@@ -192,13 +211,15 @@ def check_invariant_orders(ctx, seed, tmpl, depth):
         ctx.case(f"inv-order|{seed}|{tmpl}|{order}")
         ctx.count("inv-orders:configurations")
         compare(ctx, "invariant-order-dependent-result", base, normed(run), f"{scn.name} seed {seed} order {order}",
-                dict(replay, order=list(order)))
+                dict(replay, order=list(order)),
+                rerun=lambda order=order: normed(run_cfg(reorder(desc, order), others, invariant_depth=depth)))
     for i in range(n):
         run = run_cfg(desc, others, invariant_depth=depth, match_test=f"^{re.escape(scn.invs[i].name)}\\(")
         ctx.case(f"inv-alone|{seed}|{tmpl}|{i}")
         ctx.count("inv-orders:configurations")
         compare(ctx, "invariant-alone-vs-after-others", base, normed(run), f"{scn.name} seed {seed} alone {scn.invs[i].name}",
-                dict(replay, alone=i))
+                dict(replay, alone=i),
+                rerun=lambda i=i: normed(run_cfg(desc, others, invariant_depth=depth, match_test=f"^{re.escape(scn.invs[i].name)}\\(")))
 
 
 # ------------------------------------------------------------------------------------------------ (1b) --cache-solver across tests
@@ -367,7 +388,9 @@ def check_core_isolation(ctx):
         ctx.count(f"core-isolation:{how}:a={va}:b-alone={alone}:b-after-a={after}")
         if not core:
             ctx.count("core-isolation:no-core-from-test-a")
-        if after != alone:
+        if "ERROR" in (alone, after, va):
+            ctx.count("compare:skipped-timeout")   # unknown / error answers of the solver are not verdicts
+        elif after != alone:
             ctx.violation(
                 f"cache-solver:unsat-core-of-earlier-test-answers-later-test|{alone}->{after}",
                 f"--cache-solver ({sname}, threads {threads}): check_b = require(y<{lim}); assert(y*y != {bad_b}) is {alone} alone but "
@@ -418,8 +441,13 @@ def check_uid(ctx, gen, base, seed):
     with patched_uid(stream):
         run = run_cfg(gen.desc, gen.others)
     ctx.case(f"uid-stream|{seed}")
+    def again():
+        with patched_uid(stream):
+            r2 = run_cfg(gen.desc, gen.others)
+        return {r.name: norm_result(r, r2, pins.get(r.name, False)) for r in r2.results}
+
     compare(ctx, "uid-stream-dependent-result", base, {r.name: norm_result(r, run, pins.get(r.name, False)) for r in run.results},
-            f"{gen.desc.name} seed {seed} with a counter uid stream", dict(replay, stream="counter"))
+            f"{gen.desc.name} seed {seed} with a counter uid stream", dict(replay, stream="counter"), rerun=again)
     with patched_uid(lambda: "0000000"):
         run = run_cfg(gen.desc, gen.others)
     ctx.case(f"uid-const|{seed}")
@@ -427,7 +455,9 @@ def check_uid(ctx, gen, base, seed):
         b = base.get(r.name)
         if b is None:
             continue
-        if r.exitcode != b["exitcode"]:
+        if 2 in (r.exitcode, b["exitcode"]):
+            ctx.count("compare:skipped-timeout")
+        elif r.exitcode != b["exitcode"]:
             ctx.violation("uid-constant-changes-verdict", f"{gen.desc.name} seed {seed}: {r.name}: {b['exitcode']} -> {r.exitcode} "
                           f"with uid() constant", dict(replay, stream="const"))
         elif norm_result(r, run, pins.get(r.name, False)) != b:
@@ -664,31 +694,43 @@ def correspond(ctx):
     pool = harvest_pool()
     _mods, names = uid_aliases()
     ctx.note(f"uid aliases patched: {names}")
+    # fixed-cost parts first
+    check_depth_warning(ctx)
+    check_core_isolation(ctx)
+    check_siblings(ctx, ctx.scale(300, 1500))
+    from props import c15
+
     specs = []
     cdir = VERIF / "corpus" / "C20"
     if cdir.exists():
         for p in sorted(cdir.glob("*.json")):
             d = json.loads(p.read_text())
             if d.get("kind") == "orders":
-                specs.append((d["seed"], d.get("ntests", 3)))
+                specs.append((d["seed"], d.get("ntests", 3), True))
     ntests = 3 if ctx.tier == "quick" else 4
-    for _ in range(ctx.scale(3, 60)):
-        specs.append((ctx.rng.randrange(1 << 40), ntests))
-    for k, (seed, nt) in enumerate(specs):
-        gen, base = check_orders(ctx, seed, nt, f"Iso{k}", pool)
-        check_uid(ctx, gen, base, seed)
-    from props import c15
-
+    for _ in range(ctx.scale(3, 10)):
+        specs.append((ctx.rng.randrange(1 << 40), ntests, False))
     inv = [(ctx.rng.randrange(1 << 40), c15.TEMPLATES.index(c15.s_counter), 2), (ctx.rng.randrange(1 << 40), c15.TEMPLATES.index(c15.s_toggle), 2)]
     if ctx.tier != "quick":
         inv += [(ctx.rng.randrange(1 << 40), t, 2) for t in range(len(c15.TEMPLATES))]
-    for seed, t, d in inv[: ctx.scale(2, 40)]:
-        check_invariant_orders(ctx, seed, t, d)
-    check_core_isolation(ctx)
-    for k in range(ctx.scale(1, 12)):
-        check_cache_orders(ctx, ctx.rng.randrange(1 << 40), 1 if (k + ctx.seed) % 2 == 0 else None, reps=ctx.scale(1, 2))
-    check_depth_warning(ctx)
-    check_siblings(ctx, ctx.scale(300, 3000))
+    inv = inv[: ctx.scale(2, 12)]
+    ncache = ctx.scale(1, 4)
+    # interleave the three kinds so that a budget stop leaves all of them covered
+    k = 0
+    while specs or inv or ncache:
+        if k and over_budget(ctx):
+            break
+        if specs:
+            seed, nt, directed = specs.pop(0)
+            gen, base = check_orders(ctx, seed, nt, f"Iso{k}", pool)
+            check_uid(ctx, gen, base, seed)
+        if inv:
+            seed, t, d = inv.pop(0)
+            check_invariant_orders(ctx, seed, t, d)
+        if ncache:
+            ncache -= 1
+            check_cache_orders(ctx, ctx.rng.randrange(1 << 40), 1 if (k + ctx.seed) % 2 == 0 else None, reps=ctx.scale(1, 2))
+        k += 1
 
 
 def replay(ctx, data) -> bool:
